@@ -113,6 +113,30 @@ def gen_tcase(rng):
     return {"k": k, "beta_lower": blow, "tau": tau, "phi": phi, "ops": ops}
 
 
+def gen_tcase_empty_then_survive(rng):
+    """a first pruning round that removes every category (tau isolated samples, phi >= 2), then duplicated samples so
+    that later rounds have survivors: orphaned samples (-1) must be re-predicted, not re-indexed"""
+    tau = rng.choice([2, 3, 4])
+    phi = 2
+    d = rng.choice([1, 2])
+    den = 8
+    pts = []
+    while len(pts) < tau + 3:
+        r = [Fraction(rng.randrange(0, den + 1), den) for _ in range(d)]
+        if r not in pts:
+            pts.append(r)
+    cc = lambda r: r + [1 - v for v in r]
+    rows = [cc(r) for r in pts[:tau]]
+    for r in pts[tau:]:
+        rows += [cc(r)] * rng.choice([2, 2, 3])
+    rows = rows[: tau * rng.choice([2, 3, 4])] if len(rows) > tau * 2 else rows
+    k = {"kind": "Fuzzy", "rho": Fraction(7, 8), "alpha": Fraction(1, 1024), "beta": Fraction(1)}
+    mode, eps = B.gen_mode(rng)
+    ops = [{"op": "fit", "X": rows, "mode": mode, "eps": eps, "veto": None},
+           {"op": "predict", "X": [list(rng.choice(rows)) for _ in range(rng.randrange(1, 4))]}]
+    return {"k": k, "beta_lower": Fraction(1, 2), "tau": tau, "phi": phi, "ops": ops}
+
+
 def make_topo(c):
     import artlib
     with contextlib.redirect_stdout(io.StringIO()):
